@@ -73,7 +73,29 @@ pub struct NCase {
     pub expr: String,
     pub operand_ty: String,
     pub result_ty: String,
+    /// Rust only: let the compiler infer the expression's type (used when the
+    /// expression does not type-check against the declared type)
+    pub infer: bool,
 }
+
+pub const RUST_TAGS: [(&str, Ty); 16] = [
+    ("bool", Ty::Bool),
+    ("i8", crate::ir::I8),
+    ("u8", crate::ir::U8),
+    ("i16", crate::ir::I16),
+    ("u16", crate::ir::U16),
+    ("i32", crate::ir::I32),
+    ("u32", crate::ir::U32),
+    ("i64", crate::ir::I64),
+    ("u64", crate::ir::U64),
+    ("f32", Ty::F32),
+    ("f64", Ty::F64),
+    ("char", Ty::Char),
+    ("usize", crate::ir::U64),
+    ("isize", crate::ir::I64),
+    ("*mut u8", Ty::Ptr { bits: 64 }),
+    ("::core::mem::MaybeUninit<u64>", Ty::P64),
+];
 
 pub type BatchFn = unsafe extern "C" fn(*const u64, *mut u64, *mut u8, usize);
 
@@ -117,7 +139,22 @@ pub fn rust_source(cases: &[NCase], rt_module: &str) -> String {
     let mut s = String::from("#![allow(warnings)]\nuse std::panic::{catch_unwind, AssertUnwindSafe};\n");
     s.push_str(rt_module);
     s.push_str("\n#[no_mangle]\npub unsafe extern \"C\" fn exprsem_init() { std::panic::set_hook(Box::new(|_| {})); }\n");
+    s.push_str("trait ToRaw { const TAG: u32; fn to_raw(self) -> u64; }\nfn tag_of<T: ToRaw>(_f: &dyn Fn() -> T) -> u32 { T::TAG }\n");
+    for (tag, (name, ty)) in RUST_TAGS.iter().enumerate() {
+        s.push_str(&format!("impl ToRaw for {name} {{ const TAG: u32 = {tag}; fn to_raw(self) -> u64 {{ let v = self; {} }} }}\n", rust_encode(*ty)));
+    }
     for c in cases {
+        if c.infer {
+            let ot = type_by_name(NLang::Rust, &c.operand_ty).unwrap();
+            s.push_str(&format!(
+                "#[no_mangle]\npub unsafe extern \"C\" fn case_{id}(inp: *const u64, out: *mut u64, st: *mut u8, n: usize) {{\n  for i in 0..n {{\n    let raw: u64 = *inp.add(i);\n    let opnd0: {oty} = {dec};\n    let r = catch_unwind(AssertUnwindSafe(|| {{ #[allow(unused_unsafe)] unsafe {{ {expr} }} }}));\n    match r {{ Ok(v) => {{ *out.add(i) = ToRaw::to_raw(v); *st.add(i) = 0; }} Err(_) => {{ *st.add(i) = 1; }} }}\n  }}\n}}\n#[no_mangle]\npub unsafe extern \"C\" fn case_{id}_tag() -> u32 {{ let opnd0: {oty} = ::core::mem::zeroed(); tag_of(&|| {{ #[allow(unused_unsafe)] unsafe {{ {expr} }} }}) }}\n",
+                id = c.id,
+                oty = c.operand_ty,
+                dec = rust_decode(ot, &c.operand_ty),
+                expr = c.expr,
+            ));
+            continue;
+        }
         let ot = type_by_name(NLang::Rust, &c.operand_ty).unwrap();
         let rt = type_by_name(NLang::Rust, &c.result_ty).unwrap();
         s.push_str(&format!(
@@ -257,6 +294,13 @@ impl Lib {
     }
     pub fn batch(&self, id: usize) -> Option<BatchFn> {
         self.sym(&format!("case_{id}")).map(|p| unsafe { std::mem::transmute::<*mut c_void, BatchFn>(p) })
+    }
+    /// inferred result type of an `infer` case
+    pub fn tag(&self, id: usize) -> Option<Ty> {
+        let p = self.sym(&format!("case_{id}_tag"))?;
+        let f: unsafe extern "C" fn() -> u32 = unsafe { std::mem::transmute(p) };
+        let t = unsafe { f() } as usize;
+        RUST_TAGS.get(t).map(|x| x.1)
     }
     pub fn init(&self) {
         if let Some(p) = self.sym("exprsem_init") {
